@@ -59,7 +59,9 @@ def run_enc(r, seed, kl, ki, lens):
     a = A(key_length=kl)
     g = det.rng(seed, 'c14', kl, ki)
     key = g.randbytes(kl)
-    others = [g.randbytes(kl), bytes([key[0] ^ 1]) + key[1:]]
+    # wrong keys: unrelated, and one bit away from the right one at the first byte, the last byte and at byte 16 (a 24- or 32-byte
+    # key that agrees with the right one on its first 16 bytes is still another key)
+    others = [g.randbytes(kl), bytes([key[0] ^ 1]) + key[1:], key[:-1] + bytes([key[-1] ^ 0x80])] + ([key[:16] + bytes([key[16] ^ 1]) + key[17:]] if kl > 16 else [])
     for n in lens:
         case = {'key_length': kl, 'key_index': ki, 'message_length': n}
         core.note_case(case)
